@@ -47,3 +47,6 @@ func VerifBufferSizes(c interface{}) (ciphertext, decoded int, ok bool) {
 	}
 	return oc.receiveBuffer.Len(), oc.receiveDecodedBuffer.Len(), true
 }
+
+// VerifReplayTTLSeconds is the time-to-live of the bridge's replay filter.
+func VerifReplayTTLSeconds() int { return int(replayTTL.Seconds()) }
